@@ -35,11 +35,13 @@ def supported():
 def result_from_world(w, res=None):
     res = res or RunResult()
     sim = w.sim
-    if sim.end_state == 'step-cap' and \
-            w.last_api_step > sim.max_steps // 2:
-        # the harness threads were still getting their calls through in the
-        # second half of the step budget: the run is slow (many polling
-        # threads, bytecode granularity), not stuck - no verdict
+    if sim.end_state == 'step-cap' and (
+            w.last_api_step > sim.max_steps // 2 or
+            sim.last_progress_step > sim.max_steps * 3 // 4):
+        # API calls still got through in the second half of the step budget,
+        # or bytes/frames/threads still moved in its last quarter: the run
+        # is slow (many polling threads, bytecode granularity, one-byte
+        # reads of large frames), not stuck - no verdict
         sim.end_state = 'inconclusive'
     res.digest = sim.digest
     res.sched_sig = sim.sched_sig
